@@ -1,28 +1,25 @@
-\* the environment of production: a writer hands over exactly what the bucket holds ("one CV => one body") and loads
-\* fail only for keys that are not being written.  Here the accounting clauses hold without any exception (NoDev).
 CONSTANT Threads = {"t1", "t2"}
 CONSTANT Keys = {"k1", "k2"}
 CONSTANT CvKeys = {"k1"}
 CONSTANT RevKeys = {"k2"}
 CONSTANT DocOf <- MCDocOf
 CONSTANT Contents = {"c1", "c2"}
-CONSTANT Configs <- CfEnv
+CONSTANT Configs <- CfThorough
 CONSTANT Fails = {"ok", "fd", "fr"}
-CONSTANT FailKeys = {"k2"}
+CONSTANT FailKeys = {"k1", "k2"}
 CONSTANT OpSet = {"Get", "GetActive", "Put", "Upsert", "Remove", "Peek"}
-CONSTANT FreePut = FALSE
+CONSTANT FreePut = TRUE
 CONSTANT MaxOps = 2
 CONSTANT MaxSteps = 3
 CONSTANT Pool = 4
-CONSTANT SeqPrefix = 1
+CONSTANT SeqPrefix = 0
 SPECIFICATION Spec
 VIEW view
 INVARIANT Bounded
 INVARIANT ItemsExact
-INVARIANT BytesExact
-INVARIANT EmptyIsZero
+INVARIANT BytesExactND
+INVARIANT EmptyIsZeroND
 INVARIANT Fresh
-INVARIANT NoDev
 INVARIANT SingleFlight
 INVARIANT ListMapBij
 INVARIANT ItemsUnlocked
@@ -31,4 +28,5 @@ INVARIANT MemBounded
 INVARIANT ItemBytesTrack
 INVARIANT BytesByItemBytes
 INVARIANT PoolOK
+INVARIANT TypeOK
 CHECK_DEADLOCK FALSE
